@@ -2070,15 +2070,22 @@ class RollPositionsAfterDates(Algo):
             target.perm["rolled"] = set()
         roll_data = target.get_data(self.roll_data)
         transactions = {}
-        # Find securities that are candidate for roll
+        # Find securities that are candidate for roll. A name that is not a
+        # child (yet) - securities named by a string are only created when
+        # first traded - has nothing to roll once its date has come, but it is
+        # recorded as rolled so that SelectActive keeps it out
         sec_names = [
-            sec_name for sec_name, sec in target.children.items() if isinstance(sec, SecurityBase) and sec_name in roll_data.index and sec_name not in target.perm["rolled"]
+            sec_name
+            for sec_name in roll_data.index
+            if sec_name not in target.perm["rolled"] and (sec_name not in target.children or isinstance(target.children[sec_name], SecurityBase))
         ]
 
         # Calculate new transaction and close old position
         for sec_name, sec_fields in roll_data.loc[sec_names].iterrows():
             if sec_fields["date"] <= target.now:
                 target.perm["rolled"].add(sec_name)
+                if sec_name not in target.children:
+                    continue
                 new_quantity = sec_fields["factor"] * target[sec_name].position
                 new_sec = sec_fields["target"]
                 if new_sec in transactions:
